@@ -89,7 +89,7 @@ func runC02(c *Ctx) {
 		if i == blockedCallee {
 			qsize = g.Range(1, 3)
 		}
-		s := w.NewSess(fmt.Sprintf("s%d", i), "r1", g.Bool(), qsize, hello)
+		s := NewAnySess(c, w, g, fmt.Sprintf("s%d", i), "r1", qsize, hello)
 		cl := NewTClient(s, behs[g.Intn(len(behs))], time.Duration([]int{1, 50, 2000, 40000}[g.Intn(4)])*time.Millisecond)
 		if i == blockedCallee {
 			cl.Beh = BehIgnore
@@ -243,7 +243,7 @@ func runC08(c *Ctx) {
 	c.Res.Shape = fmt.Sprintf("%x", hashStr(c.Res.Sample)^c.Spec.SchedSeed)
 	var clients []*TClient
 	for i := 0; i < ns; i++ {
-		s := w.NewSess(fmt.Sprintf("s%d", i), "r1", g.Bool(), 64, nil)
+		s := NewAnySess(c, w, g, fmt.Sprintf("s%d", i), "r1", 64, nil)
 		cl := NewTClient(s, []int{BehEcho, BehProgress, BehProgress, BehError}[g.Intn(4)], 0)
 		if !s.Join() {
 			c.Res.Tooling = "traffic session could not join"
